@@ -15,6 +15,7 @@ TOKEN_RE = re.compile(r"""
   | (?P<lcomment>//[^\n]*)
   | (?P<bcomment>/\*.*?\*/)
   | (?P<bstr>b"(?:[^"\\]|\\.)*")
+  | (?P<bchar>b'(?:[^'\\]|\\x[0-9a-fA-F]{2}|\\.)')
   | (?P<str>"(?:[^"\\]|\\.)*")
   | (?P<char>'(?:[^'\\]|\\.)')
   | (?P<lifetime>'[A-Za-z_][A-Za-z0-9_]*)
@@ -288,6 +289,9 @@ class Parser:
         if k == "num":
             self.eat()
             return ("num", parse_int(v))
+        if k == "bchar":
+            self.eat()
+            return ("num", eval(v)[0])
         if k == "bstr":
             self.eat()
             return ("bstr", eval(v))
